@@ -57,11 +57,16 @@ def vectors(n, seed):
 
 
 def _close(got, want, n, what, case):
+  rel = 1e-5
+  if case.get('f64'):
+    # 64-bit mode: float64 in, float64 out, float64 accuracy
+    require(np.asarray(got).dtype == np.float64, what + ': a float64 input came back as another dtype', 'float64', str(np.asarray(got).dtype), case=case)
+    rel = 1e-12
   got = np.asarray(got, np.float64)
   want = np.asarray(want, np.float64)
   require(got.shape == want.shape, what + ': shape', list(want.shape), list(got.shape), case=case)
   scale = max(1.0, float(np.max(np.abs(want))))
-  require(bool(np.all(np.isfinite(got))) and bool(np.max(np.abs(got - want)) <= 1e-5 * scale * max(1, math.log2(max(n, 2)))),
+  require(bool(np.all(np.isfinite(got))) and bool(np.max(np.abs(got - want)) <= rel * scale * max(1, math.log2(max(n, 2)))),
           what, want[:16].tolist(), got[:16].tolist(), case=case)
 
 
@@ -74,11 +79,15 @@ def transform(case):
   eff = 2 ** 7 if sn is None else sn
   eager = num_dims(n, eff) >= 7  # XLA:CPU needs minutes to compile 7-8 fused many-dimensional einsums
 
+  dt = np.float64 if case.get('f64') else np.float32
+  if case.get('f64'):
+    require(jnp.asarray(np.zeros(1, np.float64)).dtype == np.float64, 'harness: 64-bit mode is not in effect')
+
   def f(v):
     if eager:
       with jax.disable_jit():
-        return wh.walsh_hadamard_transform(jnp.asarray(np.asarray(v, np.float32)), **kw)
-    return wh.walsh_hadamard_transform(jnp.asarray(np.asarray(v, np.float32)), **kw)
+        return wh.walsh_hadamard_transform(jnp.asarray(np.asarray(v, dt)), **kw)
+    return wh.walsh_hadamard_transform(jnp.asarray(np.asarray(v, dt)), **kw)
   if num_dims(n, eff) + 1 >= 10:
     try:
       out = f(np.ones(n))
@@ -113,7 +122,28 @@ def transform(case):
   for nm in ('ramp', 'e0', 'alt'):
     _close(f(np.asarray(f(vs[nm]))), n * vs[nm], n, 'T(T(x)) != n x for %s' % nm, dict(case, vec=nm))
     evals += 1
+  if case.get('f64') and sn is None:
+    # the structured rotation in float64: norm preserved and input restored at float64 accuracy, for a size that needs padding too
+    for m in (n, max(1, n - 1)):
+      x = np.asarray(vectors(n, case.get('seed', 0))['ramp'][:m], np.float64) + 0.125
+      key = jax.random.PRNGKey(7)
+      y = wh.structured_rotation(jnp.asarray(x), key)
+      back = np.asarray(_inv(wh, y, key), np.float64)
+      yv = np.asarray(y[0] if isinstance(y, tuple) else y, np.float64)
+      nx = float(np.linalg.norm(x))
+      require(abs(float(np.linalg.norm(yv)) - nx) <= 1e-12 * max(1.0, nx) * max(1, math.log2(max(n, 2))), 'float64 rotation does not preserve the norm at '
+              'float64 accuracy', nx, float(np.linalg.norm(yv)), case=dict(case, rot_len=m))
+      require(back.shape == x.shape and bool(np.max(np.abs(back - x)) <= 1e-12 * max(1.0, float(np.max(np.abs(x)))) * max(1, math.log2(max(n, 2)))),
+              'float64 inverse rotation does not restore the input at float64 accuracy', x[:8].tolist(), back.reshape(-1)[:8].tolist(), case=dict(case, rot_len=m))
+      evals += 1
   return {'evals': evals, 'nontrivial': n > eff or n > 1, 'outcome': [n, sn, round(float(np.sum(outs['ramp'])), 2)]}
+
+
+def _inv(wh, y, key):
+  """inverse_structured_rotation on whatever structured_rotation returned (array, or (array, original shape))."""
+  if isinstance(y, tuple):
+    return wh.inverse_structured_rotation(y[0], key, y[1])
+  return wh.inverse_structured_rotation(y, key)
 
 
 import contextlib
@@ -371,7 +401,14 @@ TIMEOUTS = {k: 900 for k in SUBS}
 
 # sub-spaces re-executed under other interpreter configurations (mc.core.CONFIGS): {configuration: {sub-space: stride}}
 # quick tier: every stride-th planned case, thorough tier: all planned cases
-CONFIG_PASSES = {'x64': {'transform': 6, 'rotation': 3, 'rotation_pytree': 2}, 'rbg': {'rotation': 3, 'rotation_pytree': 2, 'rotation_pytree_containers': 3}}
+CONFIG_PASSES = {'x64_late': {'transform': 10 ** 9}, 'x64': {'transform': 6, 'rotation': 3, 'rotation_pytree': 2}, 'rbg': {'rotation': 3, 'rotation_pytree': 2, 'rotation_pytree_containers': 3}}
+
+
+def config_cases(cfg, sub, ctx):
+  if cfg in ('x64', 'x64_late') and sub == 'transform':
+    return [{'n': n, 'small_n': sn, 'seed': ctx.seed, 'f64': True} for n, sn in ((1, None), (2, None), (8, None), (64, None), (256, None), (1024, None),
+                                                                            (64, 4), (256, 16), (4096, None))]
+  return []
 
 
 def plan(ctx):
